@@ -231,8 +231,70 @@ def make_dc(element, var):
     return fn
 
 
+_BNET = {}
+
+
+def _batch_net(trafo_loading):
+    if trafo_loading in _BNET:
+        return _BNET[trafo_loading]
+    net = pp.create_empty_network()
+    b = [pp.create_bus(net, v) for v in (110., 20., 20., 10.)]
+    pp.create_ext_grid(net, b[0])
+    pp.create_transformer_from_parameters(net, b[0], b[1], 40, 110, 20, 0.3, 12, 20, 0.05, df=0.8, parallel=2)
+    pp.create_line_from_parameters(net, b[1], b[2], 2., 0.1, 0.1, 10, 0.4, df=0.9, parallel=2)
+    pp.create_line_from_parameters(net, b[1], b[2], 3., 0.2, 0.1, 10, 0.3)
+    pp.create_transformer3w_from_parameters(net, b[0], b[2], b[3], 110, 20, 10, 40, 20, 20, 10, 11, 12, .3, .31, .32, 20, 0.05)
+    pp.create_load(net, b[2], 3., 1.)
+    pp.create_load(net, b[3], 1., 0.5)
+    pp.runpp(net, numba=False, trafo_loading=trafo_loading, lightsim2grid=False)
+    _BNET[trafo_loading] = net
+    return net
+
+
+def make_batch(trafo_loading):
+    """(B) value level: the batch readers against the per-step result writers on the same symbolic branch currents / powers"""
+    def fn(ctx):
+        rb = ctx.load("pandapower.results_branch")
+        br = ctx.load("pandapower.timeseries.read_batch_results")
+        net = copy.deepcopy(_batch_net(trafo_loading))
+        nbr = net._ppc["branch"].shape[0]
+        i_ft = ctx.obj(np.zeros((nbr, 2)))
+        s_ft = ctx.obj(np.zeros((nbr, 2)))
+        for k in range(nbr):
+            for side in (0, 1):
+                i_ft[k, side] = ctx.var(f"i{k}_{side}", 0., 2.)
+                s_ft[k, side] = ctx.var(f"s{k}_{side}", 0., 60.)
+        for tab, cols in (("line", ["max_i_ka", "df", "parallel"]), ("trafo", ["sn_mva", "vn_hv_kv", "vn_lv_kv", "df", "parallel"]),
+                          ("trafo3w", ["sn_hv_mva", "sn_mv_mva", "sn_lv_mva", "vn_hv_kv", "vn_mv_kv", "vn_lv_kv"])):
+            for c in cols:
+                net[tab][c] = ctx.series([ctx.var(f"{tab}{r}_{c}", 0.5, 120.) for r in range(len(net[tab]))], index=net[tab].index)
+        ppc = {"bus": ctx.obj(net._ppc["bus"]), "branch": ctx.obj(net._ppc["branch"].real)}
+        for t in ("res_line", "res_trafo", "res_trafo3w"):
+            net[t] = net[t].astype(object if ctx.symbolic else float)
+        rb._get_line_results(net, ppc, i_ft)
+        rb._get_trafo_results(net, ppc, s_ft, i_ft)
+        rb._get_trafo3w_results(net, ppc, s_ft, i_ft)
+        i_abs = (i_ft[:, 0][None, :], i_ft[:, 1][None, :])
+        s_abs = (s_ft[:, 0][None, :], s_ft[:, 1][None, :])
+        i_ka, i_from_ka, i_to_ka, ld = br.get_batch_line_results(net, i_abs)
+        for r in range(len(net.line)):
+            for nm, arr in (("i_ka", i_ka), ("i_from_ka", i_from_ka), ("i_to_ka", i_to_ka), ("loading_percent", ld)):
+                ctx.eq(f"batch_equals_step/res_line.{nm}[{r}]", arr[0, r], net.res_line[nm].values[r])
+        i_ka, i_hv, i_lv, s_mva, ld = br.get_batch_trafo_results(net, i_abs, s_abs)
+        for r in range(len(net.trafo)):
+            for nm, arr in (("i_hv_ka", i_hv), ("i_lv_ka", i_lv), ("loading_percent", ld)):
+                ctx.eq(f"batch_equals_step/res_trafo.{nm}[{r}]", arr[0, r], net.res_trafo[nm].values[r])
+        i_h, i_m, i_l, ld = br.get_batch_trafo3w_results(net, i_abs, s_abs)
+        for r in range(len(net.trafo3w)):
+            ctx.eq(f"batch_equals_step/res_trafo3w.loading_percent[{r}]", ld[0, r], net.res_trafo3w["loading_percent"].values[r])
+    return fn
+
+
 def instances(tier):
     out = []
+    for tl in ("current", "power"):
+        out.append(Inst(f"batch_values_{tl}", make_batch(tl), nvars=60, samples=2, max_paths=3000,
+                        meta=dict(part="B", trafo_loading=tl), raises=(UserWarning,)))
     for el, var in AC_PAIRS:
         out.append(Inst(f"ac_{el}.{var}", make_ac(el, var), nvars=14, samples=2, meta=dict(run="runpp", element=el, variable=var),
                         raises=(UserWarning,)))
